@@ -124,6 +124,10 @@ func init() {
 					// gate-keep a file on which the library itself does not produce a verdict
 					r.Violation(harness.Violation{Key: "library gives no verdict: " + f.Name, Desc: f.Name + ": " + diverges, Replay: map[string]interface{}{"kind": "cli", "file": f.Name, "text": f.Text}})
 				}
+				if diverges != "" {
+					r.Note("file skipped in the flag matrix: the library diverges on it (reported)")
+					return
+				}
 				// independent classification where the reference models are definite: the reference grammar
 				// decides the parse verdict, the reference typechecker the typing verdict
 				toks, lexOK := ref.Tokenize(f.Text)
